@@ -25,6 +25,10 @@ func NewTrackNoSelector(trackNum int) (*TrackNoSelectorImpl, error) {
 	if trackNum < 1 {
 		return nil, errorx.Invalid("TrackNoSelector requires positive trackNum, %d", trackNum)
 	}
+	// the header of a MIDI file states the number of tracks in 16 bits
+	if trackNum > 0xFFFF {
+		return nil, errorx.Invalid("TrackNoSelector requires trackNum up to 65535, %d", trackNum)
+	}
 	return &TrackNoSelectorImpl{
 		trackNum: trackNum,
 	}, nil
